@@ -9,8 +9,11 @@ TB = ('Trusted: Coq 8.16.1 kernel (full .vo build, vm_compute, no native_compute
       'run in the same command (Python harness, generators, Coq-term encoders); third-party functions are oracles with stated laws. ')
 
 CHECKS = {}
+READY = set((ROOT / 'manifest.d' / 'READY').read_text().split())   # validated by the lead: exit 0 twice on the unchanged tree
 for f in sorted((ROOT / 'manifest.d').glob('C*.json')):
     d = json.loads(f.read_text())
+    if d['property_id'] not in READY:
+        continue
     d['note'] = TB + d.get('note', '')
     CHECKS[d['property_id']] = d
 
